@@ -104,6 +104,30 @@ where
     FrameFn: FnOnce(&str, u32) -> T2 + Sync,
     T2: Future<Output = Result<FrameIO, Error>>,
 {
+    let ret = h11c_handshake_inner(ctx.clone(), queue, create_frames).await;
+    // a connection whose handshake fails is recorded with a terminal state and the error text too
+    let failure = ret
+        .as_ref()
+        .err()
+        .map(|e| format!("{} cause: {:?}", e, e.cause));
+    if let Some(failure) = failure {
+        ctx.write()
+            .await
+            .set_state(crate::context::ContextState::ErrorOccured)
+            .set_error(failure);
+    }
+    ret
+}
+
+async fn h11c_handshake_inner<FrameFn, T2>(
+    ctx: ContextRef,
+    queue: Sender<ContextRef>,
+    create_frames: FrameFn,
+) -> Result<(), Error>
+where
+    FrameFn: FnOnce(&str, u32) -> T2 + Sync,
+    T2: Future<Output = Result<FrameIO, Error>>,
+{
     let mut ctx_lock = ctx.write().await;
     let socket = ctx_lock.borrow_client_stream().unwrap();
     let request = HttpRequest::read_from(socket).await?;
